@@ -393,7 +393,7 @@ def model_steps(case, obs):
     steps, where = [], []
     for ev in obs["events"]:
         m = ev["m"]
-        if "err" in ev or m in NO_RESULT:
+        if "err" in ev or (m in NO_RESULT and not (m == "map" and ev["on"] == "vector")):
             where.append(None)
             continue
         cls = "DataFrame" if ev["on"] == "frame" else "Vector"
